@@ -74,6 +74,10 @@ def parse_stmt(sql):
                 return other
         w = parse_where(m.group(3), cnt)
         if w is None: return other
+        # the order of the assignments of a SET list means nothing in SQL (every right-hand side sees the old row): canonical order
+        CANON = ['latest_version_id', 'snapshot_version_id', 'snapshot_timestamp', 'versions_since_snapshot', 'snapshot']
+        keyof = lambda t: (CANON.index(re.match(r'\(\.(\w+)', t).group(1)) if re.match(r'\(\.(\w+)', t) and re.match(r'\(\.(\w+)', t).group(1) in CANON else 99)
+        sets = sorted(sets, key=keyof)
         return f'(.update .{m.group(1).lower()} [{", ".join(sets)}] [{", ".join(f"({col(c)}, {i})" for c, i in w)}])'
     return other
 
@@ -190,6 +194,13 @@ def method_calls(src, name, impl_info):
     formals, body = fn_def(src, name)
     roles = ROLES[name]
     out = []
+    # a parameter bound to a local first (`let secs = snapshot.timestamp.timestamp();`) is that expression
+    blets = {m.group(1): m.group(2).strip() for m in re.finditer(r'\blet\s+(\w+)\s*=\s*([^;{}]+?);', body)}
+    def unlet(p):
+        q = p.strip()
+        amp = q.startswith('&')
+        core = q[1:].strip() if amp else q
+        return (('&' if amp else '') + blets[core]) if core in blets else p
     for callee, args in calls(body):
         if callee == 'get_version_impl':
             sql = unquote(args[0])
@@ -203,7 +214,7 @@ def method_calls(src, name, impl_info):
             if sql is None: raise ValueError(f'{name}: statement is not a literal')
             pl = param_list(args[1]) if len(args) > 1 else []
             if pl is None: raise ValueError(f'{name}: parameter list not understood: {args[1][:60]}')
-            out.append((parse_stmt(sql), [psrc(p, formals, roles) for p in pl]))
+            out.append((parse_stmt(sql), [psrc(unlet(p), formals, roles) for p in pl]))
     return out
 
 def raw_sqls(body):
